@@ -44,6 +44,16 @@ def grammar_cases():
             cases.append(('%s/%d' % (quad, n), (96 + n, ipaddress.IPv6Address('::ffff:' + quad).packed)))
         cases.append(('%s/33' % quad, None)); cases.append(('%s/' % quad, None)); cases.append(('%s/a' % quad, None))
     cases.append(('192.168/16', (112, ipaddress.IPv6Address('::ffff:192.168.0.0').packed)))
+    # plain addresses given where a mask may be given: the whole address is the prefix (128 bits), in every spelling of "::"
+    for t in ('1:2:3:4:5:6:7:8', '1:2:3:4:5:6:7::', '::2:3:4:5:6:7:8', '1::3:4:5:6:7:8', '1:2:3:4::6:7:8', '1:2:3:4:5:6::8', '::', '::1', '1::', 'a:b::c:d', '2001:db8::',
+              '0:0:0:0:0:0:0:0', 'ffff:ffff:ffff:ffff:ffff:ffff:ffff:ffff', '1:2:3:4:5:6:7:0', '0:2:3:4:5:6:7:8'):
+        cases.append((t, (128, ipaddress.IPv6Address(t).packed)))
+    for t in ('1.2.3.4', '255.255.255.255', '0.0.0.1'):
+        cases.append((t, (128, ipaddress.IPv6Address('::ffff:' + t).packed)))
+    for t in ('::ffff:1.2.3.4', '1:2:3:4:5:6:1.2.3.4', '::1:2:3:4:5:1.2.3.4', '64:ff9b::192.0.2.33'):
+        cases.append((t, (128, ipaddress.IPv6Address(t).packed)))
+    for t, n in (('::ffff:10.0.0.0/8', 104), ('64:ff9b::192.0.2.0/24', 120), ('0:0:0:0:0:ffff:10.1.0.0/16', 112)):
+        cases.append((t, (n, ipaddress.IPv6Address(t.split('/')[0]).packed)))
     return cases
 
 def main(tier):
